@@ -36,6 +36,9 @@ impl WorldB {
         if let Some(op) = self.warm_queue.pop_front() {
             return op;
         }
+        if let Some(op) = self.scenario_step(rng) {
+            return op;
+        }
         let ns = self.slots.len() as u64;
         let slot = rng.below(ns) as usize;
         let dir = rng.below(2) as usize;
@@ -157,6 +160,80 @@ impl WorldB {
             20 => Op::new(K_TOKENSURGERY, rng.below(64), rng.below(10), rng.next() >> 20, 0),
             _ => Op::new(K_CRASH, slot as u64, 0, 0, 0),
         }
+    }
+
+    /// Generator-side script for the "late denial" scenario (see `Scn`). Looks at the world before every step, so the
+    /// pool indexes it emits are exact; gives up silently when the world does not follow (somebody else took the slot, ...).
+    fn scenario_step(&mut self, rng: &mut Rng) -> Option<Op> {
+        if self.scn.is_none() {
+            let full = self.max_clients_cur > 0 && self.server.connected_clients() >= self.max_clients_cur;
+            if self.cfg.family != "session" || !full || !rng.chance(1, 25) {
+                return None;
+            }
+            let connected = self.server.clients_id();
+            let cands: Vec<usize> = (0..self.slots.len())
+                .filter(|&j| !self.slots[j].hostile && !self.slots[j].client.as_ref().map(|c| c.is_connected()).unwrap_or(false) && !self.sessions.values().any(|s| s.addr == self.slots[j].addr))
+                .collect();
+            if cands.is_empty() {
+                return None;
+            }
+            let j = *rng.pick(&cands);
+            let nids = self.cfg.get("nids").max(1);
+            let b = (0..8u64).find(|b| !connected.contains(&(1 + (b % nids))))?;
+            self.scn = Some(Scn { stage: 1, slot: j, epoch: self.slots[j].epoch + 1, denial_seq: 0, sent: 0 });
+            return Some(Op::new(K_NEWCLIENT, j as u64, b, 0, 8));
+        }
+        let mut sc = self.scn.take().unwrap();
+        let j = sc.slot;
+        if self.slots[j].epoch != sc.epoch || self.slots[j].client.is_none() {
+            return None;
+        }
+        let tid = self.slots[j].tid;
+        let find = |w: &WorldB, t: u8| w.slots[j].s2c.iter().position(|&ix| w.ledger[ix].ptype == t && w.ledger[ix].tid == Some(tid) && matches!(w.ledger[ix].producer, Producer::Server { .. }));
+        let ju = j as u64;
+        let op = match sc.stage {
+            1 => Op::new(K_TICKCLIENT, ju, 16, 0, 0),
+            2 => Op::new(K_DELIVERALL, ju, 0, 0, 0),
+            3 => {
+                let d = find(self, T_DENIED)?;
+                sc.denial_seq = self.ledger[self.slots[j].s2c[d]].seq;
+                let n = self.server.clients_id().len() as u64;
+                if n == 0 || sc.denial_seq > 40 {
+                    return None;
+                }
+                Op::new(K_SERVERDISC, rng.below(n), 0, 0, 0)
+            }
+            4 => Op::new(K_TICKCLIENT, ju, 300, 0, 0),
+            5 => Op::new(K_DELIVERALL, ju, 0, 0, 0),
+            6 => Op::new(K_DELIVER, ju, 1, find(self, T_CHALLENGE)? as u64, 0),
+            7 => Op::new(K_TICKCLIENT, ju, 16, 0, 0),
+            8 => Op::new(K_DELIVERALL, ju, 0, 0, 0),
+            9 => Op::new(K_DELIVER, ju, 1, find(self, T_KEEPALIVE)? as u64, 0),
+            10 => {
+                if !self.slots[j].client.as_ref().map(|c| c.is_connected()).unwrap_or(false) {
+                    return None;
+                }
+                Op::new(K_DELIVER, ju, 1, find(self, T_DENIED)? as u64, 0)
+            }
+            11 => {
+                // the server's packet numbers for this session: the accept was 0, every payload takes the next one
+                let newest = self.slots[j].s2c.iter().map(|&ix| &self.ledger[ix]).filter(|r| r.tid == Some(tid) && r.ptype == T_PAYLOAD).map(|r| r.seq).max();
+                if newest.map(|s| s > sc.denial_seq).unwrap_or(false) || sc.sent > 45 {
+                    sc.stage = 12;
+                    Op::new(K_DELIVERALL, ju, 1, 0, 0)
+                } else {
+                    sc.sent += 1;
+                    sc.stage = 10; // stays in 11 after the increment below
+                    Op::new(K_GENPAYLOAD, ju, 1, 9, 0)
+                }
+            }
+            _ => return None,
+        };
+        sc.stage += 1;
+        if sc.stage <= 12 {
+            self.scn = Some(sc);
+        }
+        Some(op)
     }
 
     fn pick_variant(&self, rng: &mut Rng) -> u64 {
